@@ -5,6 +5,8 @@ import (
 	"fmt"
 	"os"
 	"runtime"
+	"runtime/debug"
+	"runtime/pprof"
 	"sort"
 	"strconv"
 	"strings"
@@ -18,7 +20,14 @@ func main() {
 	only := flag.String("harness", "", "run only this harness (debugging)")
 	replay := flag.String("replay", "", "replay a counterexample file natively")
 	list := flag.Bool("list", false, "list properties and harnesses")
+	cpuprof := flag.String("cpuprofile", "", "write a CPU profile")
 	flag.Parse()
+	debug.SetGCPercent(400)
+	if *cpuprof != "" {
+		f, _ := os.Create(*cpuprof)
+		pprof.StartCPUProfile(f)
+		defer pprof.StopCPUProfile()
+	}
 	seed, _ := strconv.Atoi(envOr("VERIF_SEED", "0"))
 	reg := registry()
 	if *list {
@@ -58,7 +67,9 @@ func main() {
 	}
 	currentTier = *tier
 	run := runProperty(spec, *tier, seed, *workers, *solver)
-	os.Exit(finish(run))
+	code := finish(run)
+	pprof.StopCPUProfile()
+	os.Exit(code)
 }
 
 func doReplay(path string) int {
